@@ -2,7 +2,14 @@
     Directive/*.v.  The model (Directive/Model.v) interprets TVGen.Gen_directive, regenerated from /repo on every run: three
     booleans say which shape `DirectiveSet::add`, `MatchDebug::debug_matches` and `ValueMatch::eq` have (unrepaired /
     repaired, findings F21 / F25 / F22); every theorem below holds for both shapes, with the switch as a hypothesis where
-    the shapes differ.  Clause-to-theorem map: notes/C11.md. *)
+    the shapes differ.  Clause-to-theorem map: notes/C11.md.
+    Remark (compile-time level cap): nothing in the model takes `tracing`'s STATIC_MAX_LEVEL (the `max_level_*` cargo
+    features) as an input — [parse_env], [env_build], [env_enabled], [env_hint], [display_env] have no such parameter — so
+    every statement below is a statement about the filter whatever that cap is: the cap removes tracing's own macro
+    callsites and must not change what a parsed filter answers for other metadata (`log` records, hand-built Metadata).
+    The translator checks that `Builder::from_directives` uses the cap for its warning only (no assignment to a
+    directive's level; fails closed into [gen_directive_unrecognised]), and the correspondence runs the probing cases a
+    second time in a build with `max_level_info` against the same model values. *)
 From TV Require Import Levels.Model Directive.Model Directive.Proofs.
 From Coq Require Import Sorted.
 Local Open Scope N_scope.
